@@ -227,7 +227,16 @@ CFG = dict(
          "part=kernel (sampled): 12 (thorough 60) structured series x windows 0..=len+2 x min_periods {omitted, 0, random} x all 27 "
          "rolling entry points (returned, caller buffer, Vec fast path) and vrank / vpartition / varg_partition / vquantile / "
          "vmedian: the trace is checked directly (reads in bounds, slices inside 0..=len, every slot written exactly once before "
-         "exposure, clean panic otherwise). nt=0 marks empty input.",
+         "exposure, clean panic otherwise). "
+         "part=ktrace (structured): 9 series families (increasing / decreasing = the minimum / maximum expires at every step, zigzag, "
+         "plateau, null newcomers, extremes then nulls, all null, trailing nulls, random) x len {0,1,2,4,6} (thorough {0,1,2,3,5,6,8,9}) x "
+         "windows {0,1,2,3,len-1,len,len+1} x min_periods {omitted, 1, w, 0} x ts_vmin / ts_vmax / ts_vargmin / ts_vargmax / ts_vrank / "
+         "ts_vminmaxnorm / ts_vregx_resid_{mean,std,skew} (second series equal / shorter / longer), caller-buffer path (two-phase index "
+         "body) and returned path (iterator body, collected into a container that marks every item): the implementation's access trace is "
+         "cut into callback steps and compared with the model's steps cell by cell (driver reads exactly; callback reads: model multiset "
+         "<= impl multiset and equal support; writes exactly; number of steps; panic / number of outputs); tag rescan=1: some callback "
+         "read at least two different indices. vrank on the same series x (pct, rev): trace cut at its writes, compared modulo ties. "
+         "nt=0 marks empty input.",
     theorem_hint="Props/C10.v",
     level_text="Proof, drivers: running the driver model on the list of positions makes every fetched argument the index "
                "it was fetched from; theorems (all series lengths, all windows incl. 0 and > len): every unchecked read of every "
@@ -262,12 +271,26 @@ CFG = dict(
                "correspondence; std's sort_unstable_by / select_nth_unstable_by enter only as 'a permutation of the input' "
                "(insertion-sort model) and their comparator calls are not traced; the internal Vec<usize> of vrank is a std "
                "container: its model is a list and the harness cannot instrument it (exploration-strength on the Rust side: the "
-               "instrumented TraceView / TraceOut monitor every kernel run directly); the model-side KERNEL traces are tied to the code "
-               "through the value correspondence of the erased models (C03/C04/C05/C06/C12 runs) and are not yet compared cell by "
-               "cell with the instrumented implementation traces (only the driver traces are).",
+               "instrumented TraceView / TraceOut monitor every kernel run directly). "
+               "Kernel traces step by step (part 12): the model trace is also given as a list of steps (one per callback invocation: "
+               "driver reads, callback accesses, slot write, panic); theorems: the steps concatenate to kernel_trace (nothing added, dropped "
+               "or reordered) for every traced callback / window / body; step i is position i (driver reads of position i, write of slot i "
+               "and nothing else, callback reads inside the window of position i - for each of the five kernels, both bodies, both series "
+               "lengths); at most one step per position, only the last can carry a panic, exactly one per position and no panic whenever "
+               "the erased run returns; the emitted sorted read numbers are a permutation of the callback's reads; vrank cut at its writes "
+               "concatenates to the observable trace, writes every slot exactly once, every segment in bounds; vrank_tr_fast (the bind "
+               "evaluated once, runnable under vm_compute) = vrank_tr. These step traces ARE compared cell by cell with the instrumented "
+               "implementation on every run (part=ktrace), so the model-side kernel traces are now tied to the code by a trace "
+               "correspondence, not only through the values of the erased models. Still not traced on the model side: the comparator "
+               "reads of sort_unstable_by inside vrank (the implementation's first segment is compared by inclusion), the reads of the "
+               "internal Vec<usize>. Model corner reported: rolling2_apply_idx_default (Model/Driver.v) tests window 0 on the zipped series, "
+               "the code on self (differs only for window 0, non-empty self, empty second series, iterator body: code panics, model "
+               "returns an empty result; no access on either side).",
     level_note="Trusted: Coq kernel; model of view.rs driver bodies; the instrumented containers implement tevec's public traits "
                "in the harness (Vec's own fast-path reads cannot be observed, only its writes); std Vec internals of vrank "
                "(idx_sorted) are not instrumented; memory effects themselves (an actual out-of-bounds write) are outside Coq.",
     trusted=["instrumented containers TraceView/TraceOut (harness/src/trace.rs) faithfully log the accessor calls made through the "
-             "Vec1View / Vec1 / UninitVec / UninitRefMut traits"],
+             "Vec1View / Vec1 / UninitVec / UninitRefMut traits",
+             "StepOut (harness/src/bin/c10.rs): collect_from_iter pulls the lazy iterator one item at a time and logs a marker after "
+             "each item, so the reads between two markers are the reads of one callback invocation"],
 )
